@@ -60,8 +60,17 @@ class CombinedResult:
 class CombinedAnalysis(Analysis):
     def __new__(cls, *analyses, **kwargs):
         from .model_analysis import ModelAnalysis, CombinedModelAnalysis
+        from .indexed import IndexedAnalysis
 
         if any(isinstance(analysis, ModelAnalysis) for analysis in analyses):
+            return object.__new__(CombinedModelAnalysis)
+        if cls is CombinedAnalysis and any(
+            isinstance(analysis, IndexedAnalysis)
+            and isinstance(analysis.analysis, ModelAnalysis)
+            for analysis in analyses
+        ):
+            # (a + b) + (c.with_model(m) + d): the members of the right operand are
+            # already wrapped; without this the sum silently loses the model of c
             return object.__new__(CombinedModelAnalysis)
         return object.__new__(cls)
 
